@@ -170,7 +170,8 @@ class Check:
                 "floors": self.floors,
                 "known_findings_reported": [o["key"] for o, _ in known_hit],
                 "violated": [o["key"] for o in violations],
-                "all_obligations": [dict(key=o["key"], status=o["status"]) for o in self.obligations],
+                "all_obligations": [dict(key=o["key"], status=o["status"], rule=o["text"], sites=len(o.get("sites") or []))
+                                    for o in self.obligations],
             },
             "assumptions": self.assumptions,
             "wall_s": round(time.time() - self.t0, 2),
